@@ -98,6 +98,7 @@ def run_property(prop: str, tier: str, seed: int, budget: int, with_lean=True) -
         run.rule = c14.work_C14(run, rng, budget)
     else:
         from harness import props
+        props.THOROUGH = tier == "thorough"
         run.rule = props.WORK[prop](run, rng, budget)
     if with_lean:
         run.run_correspondence()
@@ -144,7 +145,7 @@ def main():
     prop = a.property
     seed = int(os.environ.get("VERIF_SEED", "0") or 0)
     tier = a.tier if a.tier in ("quick", "thorough") else "quick"
-    budget = 1 if tier == "quick" else 8
+    budget = 1 if tier == "quick" else 20
     try:
         run = run_property(prop, tier, seed, budget)
         rc, lines, nviol = decide(run, run.rule, lambda: run_property(prop, tier, seed + 7919, budget * 4, with_lean=False))
